@@ -84,6 +84,8 @@ def scenario(tier):
         ignored = cm.make_ignored(cm.DEFAULT_IGNORES + pats, "R")
         fmts = sym.choose("formats", fsets)
         hs = fmts[::-1] if sym.flag("reverse_h") else fmts
+        if sym.flag("first_format_given_twice"):
+            hs = hs + [hs[0]]
         nested_d = sym.flag("nested_history_at_d")
         if nested_d and deep != "none":
             sym.assume(False)  # what a pattern that names a path means inside a nested history is not specified by the statement
